@@ -1,7 +1,6 @@
 (* C04 proofs, part 1: basic facts about the persistence model (Model/Persist.v):
-   reflexivity of the observation equalities, what a statement reads (extensionality of
-   `lstep`), when DELETE / UPDATE / a failed one-row INSERT leave the leaf unchanged, and
-   monotonicity of the finding-class scanners. *)
+   reflexivity of the observation equalities, when DELETE / UPDATE / a failed one-row INSERT
+   leave the leaf unchanged, and monotonicity of the finding-class scanner. *)
 From Coq Require Import ZArith List Bool Lia.
 From TV Require Import Model.Persist.
 Import ListNotations.
@@ -56,27 +55,6 @@ Proof.
   - destruct (tab t); reflexivity.
 Qed.
 
-(* what a statement reads: the tables pointwise, the WAL switch, and (INSERT only) next_row_id *)
-Lemma lstep_sim : forall o tab1 tab2 n1 n2 w,
-  (forall t, tab1 t = tab2 t) -> (is_ins o = true -> n1 = n2) ->
-  (forall t, l_tab (lstep tab1 n1 w o) t = l_tab (lstep tab2 n2 w o) t)
-  /\ l_wal (lstep tab1 n1 w o) = l_wal (lstep tab2 n2 w o)
-  /\ l_obs (lstep tab1 n1 w o) = l_obs (lstep tab2 n2 w o)
-  /\ l_eff (lstep tab1 n1 w o) = l_eff (lstep tab2 n2 w o)
-  /\ (n1 = n2 -> l_next (lstep tab1 n1 w o) = l_next (lstep tab2 n2 w o))
-  /\ (is_ins o = false -> l_next (lstep tab1 n1 w o) = n1 /\ l_next (lstep tab2 n2 w o) = n2).
-Proof.
-  intros o tab1 tab2 n1 n2 w HT HN.
-  destruct o; cbn [lstep is_ins] in *.
-  all: try (assert (n1 = n2) by (apply HN; reflexivity); subst n2).
-  all: try (rewrite (HT t); destruct (tab2 t) as [tb|]; cbn [l_tab l_wal l_obs l_eff l_next]).
-  all: cbn [l_tab l_wal l_obs l_eff l_next].
-  all: repeat split; intros; try discriminate; try reflexivity; try assumption; try apply HT;
-       try (apply upd_ext; assumption); try congruence.
-  (* Query *)
-  f_equal. apply map_ext. intros t. now rewrite HT.
-Qed.
-
 (* ------------------------------------------------------------------ when the leaf does not change *)
 Lemma n_hit_nonneg : forall v rs, 0 <= n_hit v rs.
 Proof. intros. unfold n_hit. lia. Qed.
@@ -102,7 +80,8 @@ Qed.
 (* a row that fails adds nothing to the leaf *)
 Lemma ins_row_fail_rows : forall k c v c', ins_row k c v = (c', false) -> i_rows c' = i_rows c.
 Proof.
-  intros k c [a0 b] c' H. unfold ins_row in H.
+  intros k c v c' H. unfold ins_row in H.
+  destruct (auto_part k (i_cur c) (i_max c) (fst v)) as [[[a cur] mx] neg].
   repeat match type of H with
          | context [if ?e then _ else _] => destruct e
          | context [match ?e with Some _ => _ | None => _ end] => destruct e
@@ -121,10 +100,7 @@ Qed.
 Lemma do_insert_nil_ok : forall tb n, snd (do_insert tb n []) = true.
 Proof. intros. reflexivity. Qed.
 
-(* ------------------------------------------------------------------ the class flags are sticky *)
-Lemma k1_step_c1_mono : forall a o, k_c1 a = true -> k_c1 (k1_step a o) = true.
-Proof. intros a o H. destruct o; cbn; try assumption; now rewrite H. Qed.
-
+(* ------------------------------------------------------------------ the class flag is sticky *)
 Lemma k2_touch_c2 : forall k t c f, k_c2 (k2_touch k t c f) = k_c2 k.
 Proof. reflexivity. Qed.
 Lemma k2_clear_c2 : forall k r, k_c2 (k2_clear k r) = k_c2 k || (r && stale_any k).
@@ -142,31 +118,19 @@ Proof.
     cbn; rewrite ?H; auto.
 Qed.
 
-Lemma kscan_mono : forall h oa a b c,
-  (k_c1 a = true -> k_c1 (fst (fst (kscan a b c h oa))) = true)
-  /\ (k_c2 b = true -> k_c2 (snd (fst (kscan a b c h oa))) = true).
+Lemma kscan_mono : forall h oa b, k_c2 b = true -> k_c2 (kscan b h oa) = true.
 Proof.
-  induction h as [|o h IH]; intros oa a b c; cbn [kscan]; [split; auto|].
-  destruct oa as [|x oa]; [split; auto|].
-  destruct (IH oa (k1_step a o) (k2_step b o x) (k3_step c o)) as [I1 I2].
-  split; intros H; [apply I1, k1_step_c1_mono, H | apply I2, k2_step_c2_mono, H].
+  induction h as [|o h IH]; intros oa b H; cbn [kscan]; [exact H|].
+  destruct oa as [|x oa]; [exact H|]. apply IH, k2_step_c2_mono, H.
 Qed.
 
-Lemma kclass_zero : forall a b c, kclass (a, b, c) = 0 -> k_c1 a = false /\ k_c2 b = false.
-Proof.
-  intros a b c H. unfold kclass in H.
-  destruct (k_c2 b); [discriminate|]. destruct (k_recreated c && k_reopened c); [discriminate|].
-  destruct (k_c1 a); [discriminate|]. auto.
-Qed.
+Lemma kclass_zero : forall b, kclass b = 0 -> k_c2 b = false.
+Proof. intros b H. unfold kclass in H. destruct (k_c2 b); [discriminate | reflexivity]. Qed.
+Lemma kclass_zero_intro : forall b, k_c2 b = false -> kclass b = 0.
+Proof. intros b H. unfold kclass. now rewrite H. Qed.
 
-Lemma final_zero_now : forall h oa a b c,
-  kclass (kscan a b c h oa) = 0 -> k_c1 a = false /\ k_c2 b = false.
+Lemma final_zero_now : forall h oa b, kclass (kscan b h oa) = 0 -> k_c2 b = false.
 Proof.
-  intros h oa a b c H.
-  destruct (kscan a b c h oa) as [[a' b'] c'] eqn:E.
-  destruct (kclass_zero _ _ _ H) as [H1 H2].
-  destruct (kscan_mono h oa a b c) as [M1 M2]. rewrite E in M1, M2. cbn in M1, M2.
-  split.
-  - destruct (k_c1 a); [rewrite M1 in H1 by reflexivity; discriminate | reflexivity].
-  - destruct (k_c2 b); [rewrite M2 in H2 by reflexivity; discriminate | reflexivity].
+  intros h oa b H. apply kclass_zero in H.
+  destruct (k_c2 b) eqn:E; [|reflexivity]. rewrite (kscan_mono h oa b E) in H. discriminate.
 Qed.
